@@ -387,6 +387,24 @@ pub fn run(a: &Args) {
             }
         }
     }
+    // frames whose compressed data is larger than 64 KiB (several data chunks per frame are possible): noise through an animated encoder
+    for k in 0..(if thorough { 12 } else { 3 }) {
+        let mut cfg = random_cfg(&mut rng, Some(true));
+        cfg.w = 150 + k as u32; cfg.h = 150; cfg.color = 2; cfg.depth = 8; cfg.palette = None; cfg.sep = k % 2 == 1;
+        cfg.compression = *rng.pick(&[0u8, 1, 3, 13]);
+        let n = match cfg.animated { Some((nf, _)) => nf as usize + cfg.sep as usize, None => 1 };
+        let ops: Vec<WOp> = (0..n).map(|_| WOp::Image { stream: None, parts: vec![] }).collect();
+        let sink = Sink::new(0, None, false);
+        o.mark(&format!("writer-big {:?} {:?}", cfg, ops));
+        let run = run_writer(&cfg, &ops, sink.clone(), true, &mut rng);
+        o.direct_checks += 1;
+        o.count("cfg.animated+big-frames");
+        let bytes = sink.0.borrow().accepted.clone();
+        if run.panicked.is_some() || run.errors_before_finish > 0 || run.finish != "ok" { o.violation(viol("encoder-panicked", "encoder-refused-big-frames", vec![("config", jstr(&format!("{:?}", cfg))), ("results", jstr(&run.results.join(" | "))), ("panic", jstr(&format!("{:?}", run.panicked)))])); continue; }
+        if let Err(why) = validate(&bytes) {
+            o.violation(viol("encoder-output-not-conformant", "encoder-output-not-conformant", vec![("config", jstr(&format!("{:?}", cfg))), ("why", jstr(&why)), ("emitted_len", bytes.len().to_string())]));
+        }
+    }
     o.mark("done");
     o.finish();
 }
